@@ -944,18 +944,21 @@ impl<'a> WriteTxn<'a> {
                 })?;
             }
 
-            for edge in run.iter_edges() {
-                wal.append(&WalRecord::CreateEdge {
-                    src: edge.src,
-                    rel: edge.rel,
-                    dst: edge.dst,
-                })?;
-            }
+            // Tombstones go first: replay applies records in file order and
+            // `MemTable::tombstone_edge` drops the copies staged so far, so an edge that was
+            // deleted and re-created in this transaction must be logged after its tombstone.
             for node in run.iter_tombstoned_nodes() {
                 wal.append(&WalRecord::TombstoneNode { node })?;
             }
             for edge in run.iter_tombstoned_edges() {
                 wal.append(&WalRecord::TombstoneEdge {
+                    src: edge.src,
+                    rel: edge.rel,
+                    dst: edge.dst,
+                })?;
+            }
+            for edge in run.iter_edges() {
+                wal.append(&WalRecord::CreateEdge {
                     src: edge.src,
                     rel: edge.rel,
                     dst: edge.dst,
